@@ -133,23 +133,24 @@ def choice_cover(a, size=None, replace=True, p=None):
 POOL_W = {4: [0.34, 0.33, 0.3299, 0.0001], 5: [0.26, 0.25, 0.25, 0.2399, 0.0001], 3: [0.5, 0.4999, 0.0001]}  # the last point is trimmed away
 
 
-def build_state(npool, n_particles, iter_val, d=1, last_beta=0.0):
+def build_state(npool, n_particles, iter_val, d=1, last_beta=0.0, beta_cur=0.5):
     st = StateManager(n_dim=d)
     u = (np.arange(1, npool + 1, dtype=float) / (npool + 1)).reshape(npool, 1).repeat(d, axis=1)
     st.update_current({"u": u, "x": u.copy(), "logl": -np.arange(npool, dtype=float), "beta": last_beta, "logz": 0.0})
     st.commit_current_to_history()
-    st.update_current({"beta": 0.5})
+    # the active particles left by the previous iteration (n_particles rows; the resampling step normally replaces them)
+    st.update_current({"beta": beta_cur, "u": u[:n_particles].copy(), "x": u[:n_particles].copy(), "logl": -np.arange(n_particles, dtype=float)})
     st._current["iter"] = iter_val
     return st, u
 
 
-def make_pipeline(cluster_every, npool, n_particles, kmax, first_iter_range=(1, 7), resumed=False):
+def make_pipeline(cluster_every, npool, n_particles, kmax, first_iter_range=(1, 7), resumed=False, beta_cur=0.5):
     """resumed=True: the steps are new objects (as after a resume from a checkpoint) but the restored history already ends in an
     annealing iteration (beta > 0) - the clustering model has still never been fitted in this process."""
     W = np.array(POOL_W[npool])
 
     def run(ctx, iter_val, clusterer, fitd, resample_idx):
-        st, u = build_state(npool, n_particles, iter_val, last_beta=(0.25 if resumed else 0.0))
+        st, u = build_state(npool, n_particles, iter_val, last_beta=(min(0.25, beta_cur / 2) if resumed else 0.0), beta_cur=beta_cur)
         tr = train_mod.Trainer(state=st, pbar=None, clusterer=clusterer, cluster_every=cluster_every, clustering=True,
                                TRIM_ESS=0.99, TRIM_BINS=50, DOF_FALLBACK=1e6)
         rs = resample_mod.Resampler(st, n_particles=n_particles, resample="mult", clusterer=clusterer, clustering=True)
@@ -335,7 +336,7 @@ def make_pipeline(cluster_every, npool, n_particles, kmax, first_iter_range=(1, 
                 "payload": {"problems": problems[:6]},
                 "what": "real Trainer/Resampler/Mutator with a scripted functional clusterer: " + "; ".join(f"[{n_}] {w_}" for n_, w_ in problems[:3])}
 
-    return Obligation(f"pipeline-every{cluster_every}-pool{npool}-n{n_particles}-K{kmax}" + ("-resumed" if resumed else ""), harness, replay=replay,
+    return Obligation(f"pipeline-every{cluster_every}-pool{npool}-n{n_particles}-K{kmax}" + ("-resumed" if resumed else "") + (f"-beta{beta_cur:g}" if beta_cur != 0.5 else ""), harness, replay=replay,
                       encodes=[train_mod.Trainer.run, resample_mod.Resampler.run, ModeStatistics.from_particles, ModeStatistics.__init__],
                       bounds=f"cluster_every={cluster_every}, symbolic first annealing iteration index in {list(first_iter_range)}, pool of {npool} points "
                              f"(one trimmed away), {n_particles} active particles, K <= {kmax} fitted clusters, every label pattern and resampling index",
@@ -452,7 +453,9 @@ def make_mode_fit_draws(npts, kmax):
 
 
 def obligations(tier):
-    obs = [make_pipeline(1, 4, 2, 2), make_pipeline(3, 4, 1, 2), make_pipeline(5, 3, 1, 2), make_global(4), make_pipeline(2, 3, 1, 2, resumed=True), make_mode_fit_draws(4, 2)]
+    obs = [make_pipeline(1, 4, 2, 2), make_pipeline(3, 4, 1, 2), make_pipeline(5, 3, 1, 2), make_global(4), make_pipeline(2, 3, 1, 2, resumed=True), make_mode_fit_draws(4, 2),
+           # the smallest positive temperature the bisection can return (2^-14): every step must treat it as an annealing iteration
+           make_pipeline(1, 4, 2, 2, beta_cur=2.0 ** -14)]
     if tier == "thorough":
         obs += [make_pipeline(1, 5, 1, 3), make_pipeline(1, 4, 2, 3), make_pipeline(2, 4, 2, 2), make_pipeline(7, 4, 1, 2, first_iter_range=(1, 15)),
                 make_pipeline(3, 4, 1, 2, resumed=True), make_mode_fit_draws(5, 2), make_mode_fit_draws(4, 3)]
